@@ -636,6 +636,8 @@ def gen_step(rs, view: View, allowed_ops: List[str], weights: Optional[Dict[str,
             elim = elim + _subset(rs, cvs, 0.3)
         elif r_el < 0.3:
             elim = list(vs) + _subset(rs, cvs, 0.5)  # more eliminated variables than usable context rows
+        if r_el > 0.92:
+            elim = [rs.choice([n_ for n_ in NAMES + EXTRA_NAMES if n_ not in vs] or NAMES)]  # nothing mentions it
         if deg is not None and li == deg and deg_zero:
             elim = list(dict.fromkeys(deg_zero + (elim if rs.random() < 0.5 else [])))  # eliminate what cancelled
         A["self"] = {"slot": li}
@@ -673,7 +675,32 @@ def gen_step(rs, view: View, allowed_ops: List[str], weights: Optional[Dict[str,
         A["objective"] = _lit(obj)
         A["maximize"] = _lit(rs.random() < 0.5)
     elif name == "from_dict":
-        A["d"] = _lit(machine_dict_of(view.pool[ci]))
+        d = machine_dict_of(view.pool[ci])
+        if rs.random() < 0.3:
+            # well-kinded but semantically odd records
+            odd = rs.choice(["dup_in", "both", "undeclared", "zero", "empty_in", "huge", "drop_decl"])
+            allv = d["input_vars"] + d["output_vars"]
+            clauses = d["assumptions"] + d["guarantees"]
+            if odd == "dup_in" and d["input_vars"]:
+                d["input_vars"].append(d["input_vars"][0])
+            elif odd == "both" and d["output_vars"]:
+                d["input_vars"].append(d["output_vars"][0])
+            elif odd == "undeclared" and clauses:
+                rs.choice(clauses)["coefficients"]["zz_undeclared"] = float(rs.choice([1.0, 0.0]))
+            elif odd == "zero" and clauses:
+                cl = rs.choice(clauses)
+                if cl["coefficients"]:
+                    cl["coefficients"][rs.choice(sorted(cl["coefficients"]))] = 0.0
+            elif odd == "empty_in":
+                d["input_vars"] = []
+            elif odd == "huge" and clauses:
+                cl = rs.choice(clauses)
+                cl["constant"] = float(rs.choice([1e308, -1e308, 1e-320, 1e30]))
+            elif odd == "drop_decl" and allv:
+                v0 = rs.choice(allv)
+                d["input_vars"] = [x for x in d["input_vars"] if x != v0]
+                d["output_vars"] = [x for x in d["output_vars"] if x != v0]
+        A["d"] = _lit(d)
         A["simplify"] = _lit(rs.random() < 0.5)
         step["dst"] = dstC
     elif name in ("from_strings", "construct"):
